@@ -233,3 +233,73 @@ Example shift_example :
   ~ In i [n] /\ index_over [n] (Var n) = true /\ index_over [n] (Int 0) = true /\
   forallb (okbind (okb i [n])) body = true.
 Proof. cbn. repeat split; try reflexivity. intros [H|[]]; discriminate H. Qed.
+
+(** ** the whole-procedure rewrite, as the implementation performs it (the loop is found by its Sym) *)
+From Core Require Import RewriteAt.
+
+Fixpoint fv_index (e : expr) : list sym :=
+  match e with
+  | Var y => [y]
+  | USub a => fv_index a
+  | BinOp _ a b => fv_index a ++ fv_index b
+  | _ => []
+  end.
+
+Definition shift_f (i : sym) (nlo : expr) (s : stmt) : option stmt :=
+  match s with
+  | For j lo hi body par => if Pos.eqb j i then Some (shift_loop_rw i lo hi nlo body par) else None
+  | _ => None
+  end.
+
+(** the hypotheses of [rule_shift_loop], decided on the matched loop *)
+Definition shift_ok (i : sym) (nlo : expr) (s : stmt) : bool :=
+  match s with
+  | For j lo hi body par =>
+      let V := fv_index lo ++ fv_index nlo in
+      negb (memb i V) && index_over V lo && index_over V nlo && forallb (okbind (okb i V)) body
+  | _ => false
+  end.
+
+Definition shift_proc (i : sym) (nlo : expr) : proc -> proc := rw_proc (shift_f i nlo).
+Definition shift_ok_proc (i : sym) (nlo : expr) : proc -> bool := ok_proc (shift_f i nlo) (shift_ok i nlo).
+
+Lemma shift_f_sound : forall i nlo, (forall st, exists nl, eval st nlo = Ok (VInt nl)) ->
+  forall s s', shift_f i nlo s = Some s' -> shift_ok i nlo s = true -> refines [s] [s'].
+Proof.
+  intros i nlo Hev s s' Hf Hok. destruct s; cbn [shift_f] in Hf; try discriminate Hf.
+  destruct (Pos.eqb i0 i) eqn:E; [|discriminate Hf]. apply Pos.eqb_eq in E. subst i0.
+  injection Hf as <-. cbn [shift_ok] in Hok.
+  apply andb_true_iff in Hok as [Hok Hbody]. apply andb_true_iff in Hok as [Hok Hnlo].
+  apply andb_true_iff in Hok as [Hi Hlo]. apply negb_true_iff in Hi.
+  eapply rule_shift_loop with (V := fv_index lo ++ fv_index nlo).
+  - apply memb_false, Hi.
+  - apply index_over_depends, Hlo.
+  - apply index_over_depends, Hnlo.
+  - exact Hbody.
+  - intros st l _. apply Hev.
+Qed.
+
+Theorem shift_proc_preserves : forall i nlo p inp bufs cfg,
+  (forall st, exists nl, eval st nlo = Ok (VInt nl)) ->
+  shift_ok_proc i nlo p = true -> run p inp = Done bufs cfg -> run (shift_proc i nlo p) inp = Done bufs cfg.
+Proof.
+  intros i nlo p inp bufs cfg Hev Hok. unfold shift_proc, shift_ok_proc in *.
+  apply rw_proc_preserves with (ok := shift_ok i nlo); [|exact Hok].
+  apply shift_f_sound, Hev.
+Qed.
+
+Corollary shift_proc_literal_preserves : forall i z p inp bufs cfg,
+  shift_ok_proc i (Int z) p = true -> run p inp = Done bufs cfg -> run (shift_proc i (Int z) p) inp = Done bufs cfg.
+Proof. intros i z p inp bufs cfg. apply shift_proc_preserves. intro st. exists z. reflexivity. Qed.
+
+Example shift_proc_example :
+  let i := 1%positive in let n := 2%positive in let x := 3%positive in
+  let p := Proc [(n, KSize); (x, KTensor [Var n] false)] []
+             [For i (Int 2) (Var n) [Assign x [BinOp OSub (Var i) (Int 2)] (Real (Qcanon.Q2Qc (QArith_base.Qmake 1 1)))] false] in
+  shift_ok_proc i (Int 0) p = true /\
+  shift_proc i (Int 0) p =
+    Proc [(n, KSize); (x, KTensor [Var n] false)] []
+      [For i (Int 0) (BinOp OAdd (Int 0) (BinOp OSub (Var n) (Int 2)))
+         [Assign x [BinOp OSub (BinOp OAdd (Var i) (BinOp OSub (Int 2) (Int 0))) (Int 2)]
+                 (Real (Qcanon.Q2Qc (QArith_base.Qmake 1 1)))] false].
+Proof. split; reflexivity. Qed.
